@@ -81,6 +81,7 @@ pub fn c07(ctx: &Ctx, subj: &dyn DynSubject, ty: &Ty, rep: &mut Report) {
         // (1) every block is preceded by an Align event for the same unit; start % unit == 0; minimal zero gap
         let mut last_align: Option<(usize, usize)> = None;
         let mut gap_seen = false;
+        let mut deferred: Option<Fail> = None;
         for e in &events {
             match e {
                 Event::Align { pos, unit } => last_align = Some((*pos, *unit)),
@@ -93,7 +94,10 @@ pub fn c07(ctx: &Ctx, subj: &dyn DynSubject, ty: &Ty, rep: &mut Report) {
                     }
                     let u = *unit;
                     if u == 0 || !u.is_power_of_two() {
-                        return Err(Fail::new("unit-not-power-of-two", format!("alignment unit of {} is {}", tn, u)));
+                        // reported at the end: the remaining sub-checks (counts, consumption) still apply
+                        deferred.get_or_insert(Fail::new("unit-not-power-of-two", format!("alignment unit of {} is {}", tn, u)));
+                        last_align = None;
+                        continue;
                     }
                     if u < *align_of {
                         return Err(Fail::new("unit-below-native-align", format!("alignment unit {} of {} is below its native alignment {}", u, tn, align_of)));
@@ -151,6 +155,11 @@ pub fn c07(ctx: &Ctx, subj: &dyn DynSubject, ty: &Ty, rep: &mut Report) {
         }
         let l2 = super::basic::real_max_unit(&events).next_power_of_two();
         let pl = crate::faults::Placed::new(&padded, l2.max(64), 0);
+        // with a unit that is not a power of two (the deferred failure) no buffer placement satisfies the
+        // address check for every block, so only the full-copy consumption is compared
+        if deferred.is_some() {
+            return Err(deferred.unwrap());
+        }
         match guard(|| subj.eps_consumed(pl.bytes())) {
             Ok(Ok(n)) => {
                 if n != bytes.len() {
@@ -160,7 +169,10 @@ pub fn c07(ctx: &Ctx, subj: &dyn DynSubject, ty: &Ty, rep: &mut Report) {
             Ok(Err(e)) => return Err(Fail::new(&format!("eps-error:{}", err_name(&e)), format!("ε-copy failed with trailing garbage: {:?}", e))),
             Err(p) => return Err(Fail::new(&format!("eps-panic:{}", panic_class(&p)), format!("ε-copy panicked: {}", p))),
         }
-        Ok(())
+        match deferred {
+            Some(f) => Err(f),
+            None => Ok(()),
+        }
     });
 }
 
